@@ -35,8 +35,7 @@ def step_area(pos, neg, ep, en, sc, lo: F, up: F) -> F:
 def _mk(s, sc, ec):
     from score_analysis import Scores
 
-    dt = int if s["mode"] == "int" else float
-    return Scores(np.asarray(s["pos"], dtype=dt), np.asarray(s["neg"], dtype=dt),
+    return Scores(gen.build_scores(s, "pos"), gen.build_scores(s, "neg"),
                   nb_easy_pos=s["ep"], nb_easy_neg=s["en"], score_class=sc, equal_class=ec)
 
 
@@ -44,7 +43,7 @@ def _mk(s, sc, ec):
 def _full_cases(max_size=10):
     return st.fixed_dictionaries(dict(
     s=gen.score_sets(min_pos=1, min_neg=1, max_size=max_size,
-                     modes=("grid", "grid", "grid", "int", "dyadic", "float", "ulp", "distinct"))))
+                     modes=("grid", "grid", "grid", "int", "dyadic", "float", "ulp", "distinct"), huge_easy=True, containers=("f64", "f64", "f32", "list", "neg-int", "pos-int", "neg-f32"))))
 
 
 def check_full(case):
